@@ -18,11 +18,14 @@ AcsOther == << <<Post, "urlB", 1>> >>                \* the other SP (sp2)
 SloOther == << <<Redirect, "sloB", 0>> >>
 
 Issuers == {"sp1", "sp2", "unknown"}
-Urls == {"absent", "url1", "url2", "url3", "urlB", "url1-case", "url1-slash", "url1-query", "unregistered"}
+Urls == {"absent", "url1", "url2", "url3", "urlB", "url1-case", "url1-slash", "url1-query", "url1-port", "unregistered"}
 Indexes == {"absent", "1", "2", "9"}
 PBind == {"absent", Post, Redirect, Artifact, "bogus"}
-Scn == [typ : {"authn"}, layout : Layouts, issuer : Issuers, url : Urls, index : Indexes, pbinding : PBind]
-       \cup [typ : {"logout"}, layout : Layouts, issuer : Issuers, url : {"absent"}, index : {"absent"}, pbinding : {"absent"}]
+\* the server is long-lived: prev is the authentication request it answered just before (none, sp1 naming url1, sp2 naming
+\* urlB).  Where it answers now is a function of the present request and the requester's metadata alone.
+Prev == {"none", "sp1_url1", "sp2_urlB"}
+Scn == [typ : {"authn"}, layout : Layouts, issuer : Issuers, url : Urls, index : Indexes, pbinding : PBind, prev : Prev]
+       \cup [typ : {"logout"}, layout : Layouts, issuer : Issuers, url : {"absent"}, index : {"absent"}, pbinding : {"absent"}, prev : Prev]
 
 VARIABLES scn, pc, result
 vars == <<scn, pc, result>>
